@@ -189,6 +189,17 @@ def _drive(run, plan, har):
                 run.stats['probe.negative_age'] = 1
             elif not (isinstance(age, int) and low <= age <= high + 1):
                 run.viols.append(('age', 'wrong-value', '%s: age %r, time since creation on the relay clock is %d..%d ms' % (where, age, low, high)))
+        elif ages and pin['create_time'] == 0:
+            # a source without a clock: the time since creation is the age the bundle arrived with plus the time it stayed here;
+            # (the unchanged tree transmits no age block at all for such a bundle, which "at most one" permits)
+            ages_in = [blk for blk in rin['blocks'] if blk['type'] == 7]
+            if len(ages_in) == 1:
+                run.stats['in.clockless_age_out'] = 1
+                age_in = cbor2.loads(ages_in[0]['btsd'])
+                age = cbor2.loads(ages[0]['btsd'])
+                stay = (t_after - t_before) // 1000 + 1
+                if not (isinstance(age, int) and isinstance(age_in, int) and age_in <= age <= age_in + stay):
+                    run.viols.append(('age', 'wrong-value-clockless', '%s: age %r on the wire for a bundle without creation time that arrived with age %r and stayed at most %d ms' % (where, age, age_in, stay)))
         nums = [blk['num'] for blk in out['blocks']]
         if len(set(nums)) != len(nums):
             run.viols.append(('block-num', 'duplicate', '%s: block numbers %r' % (where, nums)))
